@@ -414,13 +414,27 @@ _public_ int m_ctx_register(const char *ctx_name, m_ctx_flags flags, const void 
 _public_ int m_ctx_deregister(void) {
     M_CTX_ASSERT();
     M_PARAM_ASSERT(c->state == M_CTX_IDLE);
+    M_PARAM_ASSERT(!c->destroying);
 
-    int ret = pthread_setspecific(key, NULL);
-    if (ret == 0) {
-        m_iterate(c->modules, ctx_destroy_mods, NULL);
-        m_mem_unref(c);
+    /*
+     * Deregister every module while the context is still reachable
+     * (module deregistration checks that it runs in the module's own context);
+     * no module can be registered anymore, and the last module being
+     * deregistered must not try to release the context a second time.
+     */
+    c->destroying = true;
+    c->finalized = true;
+    int ret = 0;
+    while (m_map_len(c->modules) > 0 && ret == 0) {
+        /* Restart when a stop hook deregistered other modules too */
+        ret = m_iterate(c->modules, ctx_destroy_mods, NULL);
+        if (ret == -EACCES) {
+            ret = 0;
+        }
     }
-    return ret;
+    pthread_setspecific(key, NULL);
+    m_mem_unref(c);
+    return 0;
 }
 
 _public_ int m_ctx_set_logger(m_log_cb logger) {
